@@ -271,6 +271,28 @@ def init_case(ctx, c):
     ctx.count('load_weights:' + ('default' if not (c.get('zip_p') or c.get('zip_q')) else 'p=%s q=%s' % (c.get('zip_p'), c.get('zip_q'))))
     ctx.count('verdict:' + ('ok' if test_ok else 'failed'))
     # ---- (1) verdict consistency -------------------------------------------------------------------------------
+    # did initialisation leave the state behind an anti-windup limiter of an in-service device outside its limits?
+    aw_outside = []
+    for mname, mdl in ss.exist.tds.items():
+        if mdl.n == 0:
+            continue
+        online = np.asarray(mdl.u.v, dtype=float) != 0 if hasattr(mdl, 'u') else np.ones(mdl.n, dtype=bool)
+        for dname, d in mdl.discrete.items():
+            if type(d).__name__ not in ('AntiWindup', 'AntiWindupRate'):
+                continue
+            try:
+                x = np.asarray(d.u.v, dtype=float)
+                bad = np.zeros(mdl.n, dtype=bool)
+                if not d.no_upper:
+                    up = np.asarray(d.upper.v, dtype=float) * (-1.0 if d.sign_upper.v == -1 else 1.0)
+                    bad |= x > up + 1e-8
+                if not d.no_lower:
+                    lo = np.asarray(d.lower.v, dtype=float) * (-1.0 if d.sign_lower.v == -1 else 1.0)
+                    bad |= x < lo - 1e-8
+                if np.any(bad & online):
+                    aw_outside.append('%s.%s' % (mname, dname))
+            except Exception:
+                pass
     ss.TDS.fg_update(ss.exist.pflow_tds, init=True)
     for item in ss.antiwindups:
         for key, _, eqval in item.x_set:
@@ -284,9 +306,10 @@ def init_case(ctx, c):
     actual_ok = (res < tol) and not has_nan
     if test_ok and not actual_ok:
         i = int(np.nanargmax(np.abs(fg))) if not has_nan else int(np.argmax(~np.isfinite(fg)))
-        ctx.fail('success_reported_with_nonzero_residual', dict(case=brief, residual=res, nan=has_nan, where=ss.dae.xy_name[i], tol=tol),
+        ctx.fail('success_reported_with_nonzero_residual', dict(case=brief, residual=res, nan=has_nan, where=ss.dae.xy_name[i], tol=tol, antiwindup_outside=aw_outside[:4]),
                  sig=dict(nan=has_nan, offline_model=info.get('offline_model'), offline_group=info.get('offline_group'),
-                          where_var=ss.dae.xy_name[i].split()[0], where_model=(ss.dae.xy_name[i].split() + ['', ''])[1]))
+                          where_var=ss.dae.xy_name[i].split()[0], where_model=(ss.dae.xy_name[i].split() + ['', ''])[1],
+                          antiwindup_started_outside_limits=bool(aw_outside)))
         return          # the reported point is not an equilibrium: the clauses that presuppose one are not evaluated
     if (not test_ok) and actual_ok and res < 0.5 * tol:
         ctx.fail('failure_reported_with_zero_residual', dict(case=brief, residual=res, tol=tol), sig=dict())
